@@ -333,7 +333,7 @@ func c08JBIG2Segments(r *kit.Rand) []byte {
 		b = append(b, be32(uint32(r.Intn(3)))...)
 		return append(b, byte(r.Intn(5)))
 	}
-	if r.Chance(1, 40) {
+	if r.Chance(1, 10) {
 		// a text region whose list of referred segments is very long: two empty
 		// symbol dictionaries, the second one referring to thousands of segments,
 		// and a text region without instances referring to both thousands of times
@@ -349,7 +349,7 @@ func c08JBIG2Segments(r *kit.Rand) []byte {
 				copy(syms[i].Pix, r.Bytes(8))
 			}
 			segment(1, 0, nil, 1, jbig2.EncodeSymbolDictSegment(syms, r.Intn(4)))
-			n = kit.Pick(r, []int{6000, 30000, 65536})
+			n = kit.Pick(r, []int{30000, 65536, 65536})
 		} else {
 			segment(1, 0, nil, 1, make([]byte, 18))
 		}
@@ -365,14 +365,18 @@ func c08JBIG2Segments(r *kit.Rand) []byte {
 		refs := make([]uint32, n)
 		for i := range refs {
 			refs[i] = 1
-			if i >= n/2 {
+			if i >= n/2 && !full {
 				refs[i] = 2
 			}
 		}
 		tr := append(append(be32(1), be32(1)...), make([]byte, 9)...) // region info 1x1 at (0,0)
-		tr = append(tr, 0, 0)                                         // text region flags
-		tr = append(tr, 0xff, 0xff, 0xff, 0xff)[:17+2]                // (no refinement AT)
-		tr = append(tr, be32(0)...)                                   // no instances
+		if r.Bool() {
+			tr = append(tr, 0, 0) // text region flags: arithmetic coding
+		} else {
+			tr = append(tr, 0, 1) // text region flags: Huffman coding (SBHUFF)
+			tr = append(tr, 0, 0) // Huffman table selection
+		}
+		tr = append(tr, be32(0)...) // no instances
 		segment(4, 6, refs, 1, tr)
 		segment(5, 49, nil, 1, nil)
 		return out
